@@ -7,7 +7,7 @@ import (
 
 func isErrOp(op string) bool {
 	switch op {
-	case "rowError", "tableError", "tableErrList", "ecNew", "ecAdd", "ecAddList", "ecScrub", "sepAdd":
+	case "rowError", "tableError", "tableErrList", "ecNew", "ecAdd", "ecAddList", "ecScrub", "sepAdd", "errBurst":
 		return true
 	}
 	return false
@@ -63,7 +63,7 @@ func genRenderStep(r *Rng, faultPct int) Step {
 	st := Step{Op: "render", A: r.Intn(NFormats), B: r.Intn(NDecoChoices), C: r.Intn(NVia), D: r.Intn(16), E: r.Intn(2)}
 	if r.Intn(100) < faultPct {
 		st.E = 1
-		st.Plan = []int{r.Intn(12), 1 + r.Intn(4), r.Range(1, 99)}
+		st.Plan = []int{r.Intn(12), 1 + r.Intn(4), r.Range(1, 99), r.Pick([]int{4, 1, 1, 1, 1})}
 	}
 	return st
 }
@@ -128,6 +128,9 @@ func (engC11) Gen(r *Rng, s *Script, idx int, tier string) {
 			if i == 0 {
 				st = Step{Op: "ecNew", A: r.Intn(3)}
 			}
+			if i > 0 && r.Chance(1, 60) {
+				st = Step{Op: "errBurst", A: 2, B: r.Intn(3), C: []int{11, 33, 65, 130, 1100}[r.Intn(5)]}
+			}
 			s.Steps = append(s.Steps, st)
 		}
 		return
@@ -170,6 +173,9 @@ func (engC11) Gen(r *Rng, s *Script, idx int, tier string) {
 	errW := r.Range(1, 6)
 	regW := r.Range(1, 4)
 	renW := r.Range(0, 3)
+	if r.Chance(1, 50) {
+		s.Steps = append(s.Steps, Step{Op: "errBurst", A: r.Intn(2), C: []int{11, 33, 65, 130, 1100}[r.Intn(5)]})
+	}
 	for i := 0; i < n; i++ {
 		switch r.Pick([]int{8, errW, regW, renW}) {
 		case 0:
@@ -198,6 +204,13 @@ func (engC11) Gen(r *Rng, s *Script, idx int, tier string) {
 			s.Steps = append(s.Steps, reg)
 			if r.Chance(1, 3) {
 				s.Steps = append(s.Steps, reg) // a second registration in the very same list
+			}
+			if r.Chance(1, 4) {
+				// the SAME callback (one error source) also registered at another level
+				again := genRegister(r, true, false)
+				again.E |= 4
+				again.Plan = nil
+				s.Steps = append(s.Steps, again)
 			}
 		default:
 			if r.Chance(1, 2) {
@@ -296,6 +309,33 @@ func (engC12) Gen(r *Rng, s *Script, idx int, tier string) {
 	nkeys := r.Range(2, 14)
 	buildW := r.Range(1, 5)
 	copyW := r.Range(0, 3)
+	if r.Chance(1, 10) {
+		s.Config["header_shrink_scenario"] = 1
+		wide := r.Range(3, 6)
+		s.Steps = append(s.Steps, Step{Op: "headers", Items: genItems(r, wide, 0, &ctr)})
+		s.Steps = append(s.Steps, Step{Op: "takeHandle", A: wide}, Step{Op: "setProp", A: 0, C: r.Intn(4), D: 1})
+		s.Steps = append(s.Steps, Step{Op: "takeHandle", A: wide - 1}, Step{Op: "setProp", A: 0, C: r.Intn(4), D: 1})
+		s.Steps = append(s.Steps, Step{Op: "headers", Items: genItems(r, r.Range(0, 2), 0, &ctr)})
+		s.Steps = append(s.Steps, Step{Op: "rowItems", Items: genItems(r, wide, 0, &ctr)})
+		s.Steps = append(s.Steps, Step{Op: "setProp", A: r.Intn(2), C: r.Intn(4), D: 1})
+	}
+	if r.Chance(1, 8) {
+		// one cell holding many keys at once, then copied, then both sides edited
+		s.Config["many_keys_scenario"] = 1
+		s.Steps = append(s.Steps, Step{Op: "rowItems", Items: genItems(r, 1, 0, &ctr)})
+		if r.Chance(1, 2) {
+			s.Steps = append(s.Steps, genRenderStep(r, 0), Step{Op: "render", A: FmtMD, C: ViaFresh})
+		}
+		nk := r.Range(6, 14)
+		for k := 0; k < nk; k++ {
+			s.Steps = append(s.Steps, Step{Op: "setProp", A: 0, C: k, D: 1})
+		}
+		s.Steps = append(s.Steps, Step{Op: "copyCell", A: 0, B: r.Intn(3)})
+		for k := r.Range(2, 6); k > 0; k-- {
+			s.Steps = append(s.Steps, Step{Op: "setProp", A: r.Intn(2), C: r.Intn(nk), D: r.Pick([]int{1, 1})})
+		}
+		nkeys = 14
+	}
 	for i := 0; i < n; i++ {
 		switch r.Pick([]int{buildW, 8, copyW, 1, 1}) {
 		case 0:
@@ -463,7 +503,11 @@ func (engC13) Gen(r *Rng, s *Script, idx int, tier string) {
 	for k := 0; k < nreg; k++ {
 		regAt[r.Intn(n)] = true
 	}
-	byValue := r.Chance(1, 6) // cell-owned callbacks travelling with by-value copies of a cell
+	byValue := r.Chance(1, 4) // cell-owned callbacks travelling with by-value copies of a cell
+	kept := -1                // render passes through one wrapper the caller keeps
+	if r.Chance(1, 3) {
+		kept = r.Intn(NFormats)
+	}
 	s.Config["by_value_cells"] = map[bool]int{false: 0, true: 1}[byValue]
 	for i := 0; i < n; i++ {
 		if byValue && i > 1 && r.Chance(1, 3) {
@@ -490,10 +534,14 @@ func (engC13) Gen(r *Rng, s *Script, idx int, tier string) {
 			continue
 		}
 		if i > n/2 && r.Chance(1, 4) {
-			if r.Chance(1, 2) {
+			if r.Chance(1, 2) && kept < 0 {
 				s.Steps = append(s.Steps, Step{Op: "invokeRC"})
 			} else {
-				s.Steps = append(s.Steps, genRenderStep(r, 0))
+				st := genRenderStep(r, 0)
+				if kept >= 0 && r.Chance(2, 3) {
+					st.A, st.C = kept, ViaReused
+				}
+				s.Steps = append(s.Steps, st)
 			}
 			continue
 		}
@@ -502,6 +550,9 @@ func (engC13) Gen(r *Rng, s *Script, idx int, tier string) {
 	s.Steps = append(s.Steps, Step{Op: "invokeRC"})
 	if r.Chance(1, 2) {
 		s.Steps = append(s.Steps, genRenderStep(r, 0))
+	}
+	if kept >= 0 {
+		s.Steps = append(s.Steps, Step{Op: "render", A: kept, C: ViaReused}, Step{Op: "render", A: kept, C: ViaReused})
 	}
 }
 
